@@ -119,7 +119,7 @@ class Ctx:
     """Recorder shared by the monitors of one run (one process)."""
 
     MAX_WITNESS_PER_CLASS = 3
-    MAX_SAMPLES = 6
+    MAX_SAMPLES = 12
 
     def __init__(self, pid: str, tier: str, seed: int):
         self.pid = pid
@@ -138,6 +138,8 @@ class Ctx:
         self.info: Dict[str, Any] = {}
         self.stats: Dict[str, float] = {}   # worst observed error / tolerance
         self._sample_kinds: Dict[str, int] = {}
+        self._gens_sampled: set = set()
+        self._last_sig: Any = None
         self.classify: Optional[Callable] = None
 
     # -- recording ---------------------------------------------------------
@@ -191,6 +193,7 @@ class Ctx:
     def sig(self, *sig: Any) -> None:
         """Register the structural signature of a non-trivial case."""
         self.sigs.add(sig_hash(sig))
+        self._last_sig = sig
 
     def stat(self, name: str, value: float) -> None:
         """Track the maximum of `value` (typically observed error divided by
@@ -368,6 +371,13 @@ def run_one(mod, ctx: Ctx, name: str, idx: int) -> None:
         from . import monitors as _m     # a case interrupted mid-way must not leave
         _m.ACTIVE[0] = None              # its contracts recording into the next one
     ctx.cases_run[name] = ctx.cases_run.get(name, 0) + 1
+    if name not in ctx._gens_sampled:
+        # every generator shows at least one of its cases in the evidence
+        if any(smp["gen"] == name for smp in ctx.samples):
+            ctx._gens_sampled.add(name)
+        elif getattr(ctx, "_last_sig", None) is not None:
+            ctx._gens_sampled.add(name)
+            ctx.sample("case-of:" + name, {"signature_of_the_case": list(ctx._last_sig)})
 
 
 # ---------------------------------------------------------------------------
